@@ -14,6 +14,15 @@ func (t *Dense) Trace() (retVal interface{}, err error) {
 	return nil, errors.Errorf("Engine %T does not support Trace", e)
 }
 
+// blasOperand returns a tensor that BLAS can read as one dense block: the engines derive the leading
+// dimensions from the shape, so a non-contiguous view has to be copied out first.
+func blasOperand(t Tensor) Tensor {
+	if d, ok := t.(*Dense); ok && d.viewOf != 0 && d.o.IsNotContiguous() {
+		return d.Materialize()
+	}
+	return t
+}
+
 // Inner performs a dot product on two vectors. If t or other are not vectors, it will return an error.
 func (t *Dense) Inner(other Tensor) (retVal interface{}, err error) {
 	// check that the data is a float
@@ -33,13 +42,14 @@ func (t *Dense) Inner(other Tensor) (retVal interface{}, err error) {
 	}
 
 	e := t.e
+	a, b := blasOperand(t), blasOperand(other)
 	switch ip := e.(type) {
 	case InnerProderF32:
-		return ip.Inner(t, other)
+		return ip.Inner(a, b)
 	case InnerProderF64:
-		return ip.Inner(t, other)
+		return ip.Inner(a, b)
 	case InnerProder:
-		return ip.Inner(t, other)
+		return ip.Inner(a, b)
 	}
 
 	return nil, errors.Errorf("Engine does not support Inner()")
@@ -97,7 +107,7 @@ func (t *Dense) MatVecMul(other Tensor, opts ...FuncOpt) (retVal *Dense, err err
 	e := t.e
 
 	if mvm, ok := e.(MatVecMuler); ok {
-		if err = mvm.MatVecMul(t, other, retVal); err != nil {
+		if err = mvm.MatVecMul(blasOperand(t), blasOperand(other), retVal); err != nil {
 			return nil, errors.Wrapf(err, opFail, "MatVecMul")
 		}
 		return handleIncr(retVal, fo.Reuse(), fo.Incr(), expectedShape)
@@ -145,7 +155,7 @@ func (t *Dense) MatMul(other Tensor, opts ...FuncOpt) (retVal *Dense, err error)
 
 	e := t.e
 	if mm, ok := e.(MatMuler); ok {
-		if err = mm.MatMul(t, other, retVal); err != nil {
+		if err = mm.MatMul(blasOperand(t), blasOperand(other), retVal); err != nil {
 			return
 		}
 		return handleIncr(retVal, fo.Reuse(), fo.Incr(), expectedShape)
@@ -187,7 +197,7 @@ func (t *Dense) Outer(other Tensor, opts ...FuncOpt) (retVal *Dense, err error) 
 	// DGER does not have any beta. So the values have to be zeroed first if the tensor is to be reused
 	retVal.Zero()
 	if op, ok := e.(OuterProder); ok {
-		if err = op.Outer(t, other, retVal); err != nil {
+		if err = op.Outer(blasOperand(t), blasOperand(other), retVal); err != nil {
 			return nil, errors.Wrapf(err, opFail, "engine.uter")
 		}
 		return handleIncr(retVal, fo.Reuse(), fo.Incr(), expectedShape)
